@@ -83,8 +83,22 @@ pub struct PolyExpectation {
     pub sig: String,
 }
 
+/// `value.` completion probe (C18): a complete field access `v.zz` on a value whose type
+/// is known; completion is asked at `offset` (start of `zz`) with trigger '.'.
+#[derive(Clone, Debug)]
+pub struct DotProbe {
+    pub module: usize,
+    pub offset: usize,
+    /// how the value is bound: parameter / let / clause variable
+    pub binder: &'static str,
+    pub ty: String,
+    /// labels of the fields common to all variants (with one type); empty for non-record types
+    pub expected: Vec<String>,
+}
+
 #[derive(Clone, Debug, Default)]
 pub struct TypedWorkspace {
+    pub dot_probes: Vec<DotProbe>,
     pub modules: Vec<Module>,
     pub texts: Vec<String>,
     pub printed: Vec<Printed>,
@@ -150,7 +164,8 @@ struct G<'a> {
     exps: &'a mut Vec<Expectation>,
     features: &'a mut Vec<&'static str>,
     /// scopes of (name, type)
-    env: Vec<Vec<(String, Ty)>>,
+    /// scopes of (name, type, declaration)
+    env: Vec<Vec<(String, Ty, DeclId)>>,
     /// qualified access: module index -> accessor used in this module (None = unqualified import / same module)
     accessors: &'a BTreeMap<usize, Option<String>>,
     counter: usize,
@@ -178,20 +193,29 @@ impl<'a> G<'a> {
             self.feat("local-named-like-a-function");
             return FN_NAMES[self.r.below(FN_NAMES.len())].to_string();
         }
+        // ... or like a module accessor of this module (`import t0`, then a local `t0` whose
+        // `t0.field` is a field access on the local because that type-checks)
+        if self.r.chance(1, 8) {
+            let accs: Vec<String> = self.accessors.values().flatten().cloned().collect();
+            if !accs.is_empty() {
+                self.feat("local-named-like-a-module-accessor");
+                return accs[self.r.below(accs.len())].clone();
+            }
+        }
         LOCALS[self.r.below(LOCALS.len())].to_string()
     }
 
     fn bind(&mut self, name: &str, ty: &Ty, what: &'static str) -> Ident {
         let d = *self.next_decl;
         *self.next_decl += 1;
-        self.env.last_mut().unwrap().push((name.to_string(), ty.clone()));
+        self.env.last_mut().unwrap().push((name.to_string(), ty.clone(), d));
         self.exps.push(Expectation { module: self.module, decl: d, what, ty: show(ty, self.adts), is_function: false });
         Ident::decl(name, d)
     }
 
     fn lookup(&self, name: &str) -> Option<&Ty> {
         for sc in self.env.iter().rev() {
-            for (n, t) in sc.iter().rev() {
+            for (n, t, _) in sc.iter().rev() {
                 if n == name {
                     return Some(t);
                 }
@@ -205,7 +229,7 @@ impl<'a> G<'a> {
         let mut out = Vec::new();
         let mut seen: Vec<&str> = Vec::new();
         for sc in self.env.iter().rev() {
-            for (n, t) in sc.iter().rev() {
+            for (n, t, _) in sc.iter().rev() {
                 if seen.contains(&n.as_str()) {
                     continue;
                 }
@@ -222,7 +246,7 @@ impl<'a> G<'a> {
         let mut out: Vec<(String, Ty)> = Vec::new();
         let mut seen: Vec<String> = Vec::new();
         for sc in self.env.iter().rev() {
-            for (n, t) in sc.iter().rev() {
+            for (n, t, _) in sc.iter().rev() {
                 if seen.contains(n) {
                     continue;
                 }
@@ -294,6 +318,19 @@ impl<'a> G<'a> {
     fn reachable_by_name(&self, f: &FnDef) -> bool {
         let qualified = f.module != self.module && matches!(self.accessors.get(&f.module), Some(Some(_)));
         qualified || !self.is_shadowed(&f.name)
+    }
+
+    /// A use of the innermost visible local of that spelling, recorded with its declaration
+    /// (the printer then knows the range of the use: C19's function-typed locals, C05).
+    fn var_expr(&self, name: &str) -> Expr {
+        for sc in self.env.iter().rev() {
+            for (n, _, d) in sc.iter().rev() {
+                if n == name {
+                    return Expr::Var(Ident::use_(name, Some(*d), true, "typed-local-use"));
+                }
+            }
+        }
+        Expr::Var(plain(name))
     }
 
     fn is_shadowed(&self, name: &str) -> bool {
@@ -422,7 +459,7 @@ impl<'a> G<'a> {
                 }
                 let (n, l) = cands[self.r.below(cands.len())].clone();
                 self.feat("field-access");
-                Expr::Field(Box::new(Expr::Var(plain(&n))), plain(&l))
+                Expr::Field(Box::new(self.var_expr(&n)), plain(&l))
             }
             9 => {
                 // tuple index
@@ -441,7 +478,7 @@ impl<'a> G<'a> {
                 }
                 let (n, i) = cands[self.r.below(cands.len())].clone();
                 self.feat("tuple-index");
-                Expr::TupleIndex(Box::new(Expr::Var(plain(&n))), i)
+                Expr::TupleIndex(Box::new(self.var_expr(&n)), i)
             }
             10 => {
                 // call a function-typed local
@@ -459,7 +496,7 @@ impl<'a> G<'a> {
                 let (n, ps) = cands[self.r.below(cands.len())].clone();
                 let args = ps.iter().map(|p| Arg { label: None, value: self.gen_expr(p, depth - 1) }).collect();
                 self.feat("call-of-function-typed-local");
-                Expr::Call(Box::new(Expr::Var(plain(&n))), args)
+                Expr::Call(Box::new(self.var_expr(&n)), args)
             }
             11 => {
                 // polymorphic helpers at this instantiation
@@ -504,11 +541,11 @@ impl<'a> G<'a> {
                         let body = match (how, box_adt) {
                             (0, _) => {
                                 self.feat("tuple-index-on-lambda-parameter");
-                                Expr::TupleIndex(Box::new(Expr::Var(plain(&pn))), 1)
+                                Expr::TupleIndex(Box::new(self.var_expr(&pn)), 1)
                             }
                             (1, Some(_)) => {
                                 self.feat("field-access-on-lambda-parameter");
-                                Expr::Field(Box::new(Expr::Var(plain(&pn))), plain("value"))
+                                Expr::Field(Box::new(self.var_expr(&pn)), plain("value"))
                             }
                             _ => self.gen_expr(ty, depth - 1),
                         };
@@ -531,7 +568,8 @@ impl<'a> G<'a> {
     fn gen_atom(&mut self, ty: &Ty) -> Expr {
         let vars = self.vars_of(ty);
         if !vars.is_empty() && self.r.chance(2, 3) {
-            return Expr::Var(plain(&vars[self.r.below(vars.len())]));
+            let pick = vars[self.r.below(vars.len())].clone();
+            return self.var_expr(&pick);
         }
         if let Some(l) = self.literal(ty) {
             return l;
@@ -614,7 +652,10 @@ impl<'a> G<'a> {
                 let rests = self.vars_of(ty);
                 let tail = if !rests.is_empty() && n > 0 && self.r.chance(1, 3) {
                     self.feat("list-spread-expression");
-                    Some(Box::new(Expr::Var(plain(&rests[self.r.below(rests.len())]))))
+                    {
+                    let pick = rests[self.r.below(rests.len())].clone();
+                    Some(Box::new(self.var_expr(&pick)))
+                }
                 } else {
                     None
                 };
@@ -736,7 +777,7 @@ impl<'a> G<'a> {
                     let id = self.bind(&n, p, "lambda-param-forced-by-use");
                     params.push(Param { label: None, name: ParamName::Name(id), ty: None });
                     // `let _ = [param, witness]` unifies the parameter with the witness type
-                    stmts.push(Stmt::Let { assert: false, pat: Pattern::Discard("_".into()), ann: None, value: Expr::List(vec![Expr::Var(plain(&n)), witness], None) });
+                    stmts.push(Stmt::Let { assert: false, pat: Pattern::Discard("_".into()), ann: None, value: Expr::List(vec![self.var_expr(&n), witness], None) });
                 }
                 let body = self.gen_expr(r, d);
                 stmts.push(Stmt::Expr(body));
@@ -774,8 +815,7 @@ impl<'a> G<'a> {
                     let mut binds = Vec::new();
                     let pat = self.gen_pattern(&st, 2, &mut binds, "let-pattern-variable");
                     for (n, t, id) in binds {
-                        let _ = id;
-                        self.env.last_mut().unwrap().push((n, t));
+                        self.env.last_mut().unwrap().push((n, t, id));
                     }
                     self.feat("let-pattern");
                     out.push(Stmt::Let { assert: !matches!(pat, Pattern::Var(_) | Pattern::Discard(_) | Pattern::Tuple(_)), pat, ann: None, value });
@@ -923,7 +963,7 @@ impl<'a> G<'a> {
         for _ in 0..nclauses {
             let mut binds = Vec::new();
             let pats: Vec<Pattern> = stys.iter().map(|t| self.gen_pattern(t, 2, &mut binds, "clause-variable")).collect();
-            self.env.push(binds.iter().map(|(n, t, _)| (n.clone(), t.clone())).collect());
+            self.env.push(binds.iter().map(|(n, t, d)| (n.clone(), t.clone(), *d)).collect());
             let body = self.gen_expr(ty, depth - 1);
             self.env.pop();
             clauses.push(Clause { pats, alts: vec![], guard: None, body });
@@ -1117,6 +1157,7 @@ pub fn generate(r: &mut Rng) -> TypedWorkspace {
     let mut texts = Vec::new();
     let mut printed_all = Vec::new();
     let mut poly = Vec::new();
+    let mut dot_probes: Vec<DotProbe> = Vec::new();
     for mi in 0..nmods {
         let mut accessors: BTreeMap<usize, Option<String>> = BTreeMap::new();
         let mut items: Vec<Item> = Vec::new();
@@ -1188,7 +1229,7 @@ pub fn generate(r: &mut Rng) -> TypedWorkspace {
                 }
                 let ty = if p.annotated { Some(ty_to_expr(&p.ty, &adts, mi, &accessors, if use_alias { Some((&alias_ty, alias_name.as_str())) } else { None })) } else { None };
                 if !p.annotated {
-                    let v = Expr::Var(plain(&p.name));
+                    let v = g.var_expr(&p.name);
                     let e = match p.ty {
                         Ty::Int => Expr::Bin(BinOp::Add, Box::new(v), Box::new(Expr::Int("1".into()))),
                         Ty::Float => Expr::Bin(BinOp::AddF, Box::new(v), Box::new(Expr::Float("1.5".into()))),
@@ -1233,11 +1274,50 @@ pub fn generate(r: &mut Rng) -> TypedWorkspace {
             text.push('\n');
             poly.push(PolyExpectation { module: mi, name: name.to_string(), sig: sig.to_string() });
         }
+        // `value.` probes for the custom types this module defines (module 0: base types too)
+        let mut probe_types: Vec<Ty> = Vec::new();
+        for (ai, a) in adts.iter().enumerate() {
+            if a.module == mi {
+                let args: Vec<Ty> = a.params.iter().enumerate().map(|(k, _)| if k % 2 == 0 { Ty::Int } else { Ty::Str }).collect();
+                probe_types.push(Ty::Adt(ai, args));
+            }
+        }
+        if mi == 0 {
+            probe_types.extend([Ty::Int, Ty::Str, Ty::List(Box::new(Ty::Int)), Ty::Tuple(vec![Ty::Int, Ty::Str]), Ty::Fn(vec![Ty::Int], Box::new(Ty::Int))]);
+        }
+        for (k, pt) in probe_types.iter().enumerate() {
+            let expected: Vec<String> = match pt {
+                Ty::Adt(ai, _) => {
+                    let a = &adts[*ai];
+                    let mut v: Vec<String> = Vec::new();
+                    if let Some(first) = a.variants.first() {
+                        for f in &first.fields {
+                            if let Some(l) = &f.label {
+                                if a.variants.iter().all(|vv| vv.fields.iter().any(|g| g.label.as_ref() == Some(l) && g.ty == f.ty)) {
+                                    v.push(l.clone());
+                                }
+                            }
+                        }
+                    }
+                    v.sort();
+                    v
+                }
+                _ => Vec::new(),
+            };
+            let shown = show(pt, &adts);
+            text.push_str(&format!("\npub fn dot_probe_{mi}_{k}(p: {shown}) {{\n  let q = p\n  let _ = p."));
+            dot_probes.push(DotProbe { module: mi, offset: text.len(), binder: "parameter", ty: shown.clone(), expected: expected.clone() });
+            text.push_str("zz\n  let _ = q.");
+            dot_probes.push(DotProbe { module: mi, offset: text.len(), binder: "let", ty: shown.clone(), expected: expected.clone() });
+            text.push_str("zz\n  case q {\n    r -> r.");
+            dot_probes.push(DotProbe { module: mi, offset: text.len(), binder: "clause-variable", ty: shown.clone(), expected });
+            text.push_str("zz\n  }\n}\n");
+        }
         modules.push(m);
         texts.push(text);
         printed_all.push(p);
     }
-    TypedWorkspace { modules, texts, printed: printed_all, expectations: exps, poly, features }
+    TypedWorkspace { dot_probes, modules, texts, printed: printed_all, expectations: exps, poly, features }
 }
 
 /// Compare two type strings up to a bijective renaming of lowercase type variables.
